@@ -133,7 +133,7 @@ def run(ctx):
         ctx.reseed_global(idx)
         grouped = rng.random() < 0.12
         big = (idx % 23 == 5)
-        staged = (idx % 9 == 4) and not big
+        staged = (idx % 6 == 4) and not big
         if big:
             grouped = False
             h = model.gen_big_history(rng)
@@ -176,9 +176,21 @@ def run(ctx):
                             q, pre = query.Or([q, t]), pre | model.expected_keys(t, built.live)
                         ctx.count("c01.nested_queries")
                         exp = check_query(ctx, rng, built, s, q, wb, wname, exp=pre)
-                    elif staged and rng.random() < 0.7:
+                    elif staged and rng.random() < 0.85:
                         q = model.gen_skip_stress(rng)
                         exp = check_query(ctx, rng, built, s, q, wb, wname)
+                        if exp is not None:
+                            # more limits on the same query: each k makes the collector skip different blocks
+                            for k in (1, 2, 3, 4):
+                                ctx.count("c01.path_checks")
+                                ctx.count("c01.staged_limit_checks")
+                                okk, top = ctx.guard("c01.path", dict(wb, query=repr(q), path="limit", k=k),
+                                                     lambda: [h["id"] for h in s.search(q, limit=k)])
+                                if okk and (not set(top) <= exp or len(top) != min(k, len(exp))):
+                                    ctx.fail("c01.path", "limit", dict(wb, query=repr(q), path="limit", k=k,
+                                                                       expected=sorted(exp, key=int)[:40]),
+                                             "limit=%d returned %r" % (k, top))
+                                    break
                     elif big and rng.random() < 0.6:
                         from whoosh import query
                         q = query.Or([model.gen_leaf(rng, fuzzy=False) for _ in range(rng.randint(3, 5))])
